@@ -391,6 +391,7 @@ func runC14(o Opts) error {
 					dt := types.ToDate(y, time.Month(m), d)
 					if t := time.Time(dt); t.Year() == y && int(t.Month()) == m && t.Day() == d {
 						c14round(s, "Date", dt, cvZ(y, m, d), "", z, "round/date-on-offset-change-day")
+						c14textRound(s, 0, cvZ(y, m, d), dt.String(), "textround/date-on-offset-change-day")
 					}
 					t := time.Date(y, time.Month(m), d, 12, 0, 0, 0, time.Local)
 					if t.Year() == y && int(t.Month()) == m && t.Day() == d && t.Hour() == 12 { // the day may not exist at all (Pacific/Apia 2011-12-30)
